@@ -627,6 +627,12 @@ def ref_verify(curve: bytes, pub: bytes, raw_sig: bytes, message: bytes) -> bool
         return False
     except ValueError:
         return False
+    if curve == b'BL':
+        # not an independent library (py_ecc is the only BLS implementation in /venv) but an independent *route*: the core
+        # verification of the basic scheme, with the message augmentation (public key || message) and the domain separation
+        # tag of the min-pk AUG ciphersuite written out here from the IETF draft
+        from py_ecc.bls import G2Basic
+        return bool(G2Basic._CoreVerify(pub, pub + message, raw_sig, b'BLS_SIG_BLS12381G2_XMD:SHA-256_SSWU_RO_AUG_'))
     return None
 
 
